@@ -4,7 +4,7 @@ From Coq Require Import ZArith List Bool Lia ZifyBool.
 From Coq Require String.
 From PS.model Require Import Smt Enc Ind Prog.
 From PS.spec Require Import Spec.
-From PS.proofs Require Import Base Cons_proof.
+From PS.proofs Require Import Base Cons_proof SortNoDup C04_periodic C04_distance.
 Import ListNotations.
 Open Scope Z_scope.
 Notation string := String.string.
@@ -95,6 +95,13 @@ Proof.
     assert (H1 : feval e (FOr [FGe (bsv w b) (TC hi); FLe (bev w b) (TC lo)]) = true).
     { apply H. apply in_flat_map. exists (lo, hi). split; auto. apply in_map_iff. exists (w, b). auto. }
     ev. lia.
+  - (* periodically unavailable *)
+    destruct ((0 <? period) && forallb (window_ok period) ivs) eqn:Hg; [|destruct Hin].
+    apply andb_true_iff in Hg as [HP Hw]. rewrite forallb_forall in Hw.
+    apply in_flat_map in Hin as ([lo hi] & Hiv & Hin). apply in_map_iff in Hin as ([w b] & [= <- <-] & Hb).
+    specialize (Hw _ Hiv). unfold window_ok in Hw.
+    apply punavail_one_sound; try lia.
+    apply H. apply in_flat_map. exists (lo, hi). split; auto. apply in_map_iff. exists (w, b). auto.
   - (* interrupted, tasks that are not of variable duration *)
     apply in_flat_map in Hin as ([w b] & Hb & Hin).
     apply in_all_busy in Hb as (l & Hu & Hb).
@@ -107,6 +114,46 @@ Proof.
       (assert (H1 : feval e (FXor (FGe (bsv w b) (TC hi)) (FLe (bev w b) (TC lo))) = true);
        [apply (fand_in _ _ _ HA); apply in_flat_map; exists b; split; [exact Hb|]; rewrite Hk;
         apply in_map_iff; exists (lo, hi); auto|]); ev; lia.
+  - (* periodically interrupted, tasks that are not of variable duration *)
+    destruct ((0 <? period) && forallb (window_ok period) ivs) eqn:Hg; [|destruct Hin].
+    apply andb_true_iff in Hg as [HP Hw]. rewrite forallb_forall in Hw.
+    apply in_flat_map in Hin as ([w b] & Hb & Hin).
+    apply in_all_busy in Hb as (l & Hu & Hb).
+    assert (HA : feval e (pinterrupted_worker w l ivs period start offset end_) = true).
+    { apply H. apply in_map_iff. exists (w, l). auto. }
+    destruct (ti_kind (be_task b)) as [|d|mn mx al] eqn:Hk; cbv iota beta in Hin.
+    3: destruct Hin.
+    all: apply in_map_iff in Hin as ([lo hi] & [= <- <-] & Hiv); specialize (Hw _ Hiv); unfold window_ok in Hw;
+      apply (pinterrupted_fixed_sound e w l ivs period start offset end_ b lo hi); try lia; auto; rewrite Hk; exact I.
+  - (* non-delay *)
+    apply in_map_iff in Hin as ([[a b] others] & [= <- <-] & Hab). rewrite feval_eq.
+    match goal with |- implb (feval e ?p) _ = true => destruct (feval e p) eqn:Hp; [cbn [implb]|reflexivity] end.
+    rewrite feval_eq in Hp. cbn [forallb] in Hp. rewrite !andb_true_iff in Hp. destruct Hp as (P1 & P2 & P3 & _).
+    destruct (consecutive_pair_constrained e c r _ a b others H Hab P1 P2 P3) as (bp & ai & Hmk & Hbp & Hai & Ha & Hb & Hle).
+    unfold bspan in Hbp, Hai, Ha, Hb. unfold assigned in Ha, Hb. cbn [fst snd] in Hbp, Hai, Ha, Hb.
+    rewrite feval_eq, (feval_eq e (FAnd _)) in Hmk. cbn [forallb] in Hmk.
+    rewrite !(feval_eq e (FGe _ _)), (feval_eq e (FEq _ _)), !(teval_eq e (TC 0)) in Hmk. rewrite feval_eq. lia.
+  - (* distance *)
+    apply in_map_iff in Hin as ([[a b] others] & [= <- <-] & Hab). rewrite feval_eq.
+    match goal with |- implb (feval e ?p) _ = true => destruct (feval e p) eqn:Hp; [cbn [implb]|reflexivity] end.
+    rewrite feval_eq in Hp. cbn [forallb] in Hp. rewrite !andb_true_iff in Hp. destruct Hp as (P1 & P2 & P3 & P4 & _).
+    destruct (consecutive_pair_constrained e c r _ a b others H Hab P1 P2 P3) as (bp & ai & Hmk & Hbp & Hai & Ha & Hb & Hle).
+    unfold bspan in Hbp, Hai, Ha, Hb, Hle. unfold assigned in Ha, Hb. cbn [fst snd] in Hbp, Hai, Ha, Hb, Hle.
+    rewrite feval_eq in Hmk.
+    assert (Hc : feval e (FOr (match ivs with
+                        | Some l => map (fun '(lo, hi) => FAnd [FGe ai (TC lo); FGe bp (TC lo); FLe ai (TC hi); FLe bp (TC hi)]) l
+                        | None => [FAnd [FGe bp (TC 0); FGe ai (TC 0)]] end)) = true).
+    { destruct ivs as [l|].
+      - rewrite feval_eq in P4. apply existsb_exists in P4 as (g & Hg & Hev). apply in_map_iff in Hg as ([lo hi] & <- & Hlh).
+        rewrite feval_eq. apply existsb_exists.
+        exists (FAnd [FGe ai (TC lo); FGe bp (TC lo); FLe ai (TC hi); FLe bp (TC hi)]). split.
+        + apply in_map_iff. exists (lo, hi). auto.
+        + rewrite feval_eq in Hev. cbn [forallb] in Hev. rewrite !(feval_eq e (FLe _ _)), !(teval_eq e (TC _)) in Hev.
+          rewrite feval_eq. cbn [forallb]. rewrite !(feval_eq e (FLe _ _)), !(feval_eq e (FGe _ _)), !(teval_eq e (TC _)). lia.
+      - rewrite feval_eq. cbn [existsb]. rewrite feval_eq. cbn [forallb]. rewrite !(feval_eq e (FGe _ _)), !(teval_eq e (TC _)). lia. }
+    rewrite Hc in Hmk. cbn [implb] in Hmk.
+    destruct mode; cbn [cmp_sum] in Hmk |- *; rewrite feval_eq in Hmk; rewrite feval_eq;
+      rewrite (teval_eq e (TSub _ _)) in Hmk; rewrite (teval_eq e (TSub _ _)); rewrite (teval_eq e (TC _)) in *; lia.
   - (* same workers *)
     apply in_map_iff in Hin as (r & [= <- <-] & Hr). apply H. apply in_map_iff. eauto.
   - (* distinct workers *)
